@@ -1,3 +1,4 @@
+import NgVerif.Proofs.Source
 import NgVerif.Proofs.Morton
 import NgVerif.Proofs.Routing
 /-
@@ -99,5 +100,19 @@ theorem file_name_width (m s p id : Nat) (hid : id < 2 ^ 64) (hs : 0 < s) :
   exact Nat.mod_lt _ (Nat.two_pow_pos s)
 
 example : (0xabcdef : Nat) < 2 ^ 64 ∧ shardKey 2 9 1 0xabcdef = 0x1bd := by decide
+
+/-- TRANSLATED SOURCE. The mask properties of `ShardSpec` and `get_shard_key` / `get_minishard_key` as they stand in
+    /repo's source (translated on every run into the 64-bit primitives `not64`, `shl64`, `shr64`, `&&&`) are the
+    definitions `minishard_number_spec` and `shard_number_spec` are about -/
+theorem source_routing_is_the_model (m s p id : Nat) :
+    Generated.Src.minishardMask (minishard_bits := m) = Routing.minishardMask m ∧
+    Generated.Src.preshiftMask (preshift_bits := p) = Routing.preshiftMask p ∧
+    Generated.Src.shardMask (minishard_bits := m) (shard_bits := s) (minishard_mask := Routing.minishardMask m)
+      = Routing.shardMask m s ∧
+    Generated.Src.shardKey (shard_mask := Routing.shardMask m s) (hash_cmc := Routing.hash p id) (minishard_bits := m)
+      = Routing.shardKey m s p id ∧
+    Generated.Src.minishardKey (minishard_mask := Routing.minishardMask m) (hash_cmc := Routing.hash p id)
+      = Routing.minishardKey m p id :=
+  Source.routing_eq_model m s p id
 
 end NgVerif.Props.C09
